@@ -239,6 +239,11 @@ theorem completes_iff_all_equal (w : Pending) : Completes w ↔ ∀ a ∈ w, ∀
       rw [eq_replicate_of_all_eq (t :: ts) h t (List.mem_cons_self)]
       exact completes_replicate _ t
 
+/-- and a mismatch is a deadlock: if two ranks execute different sequences the world runs into a state in which
+    some rank has not returned and no rank can move -/
+theorem mismatch_deadlocks (w : Pending) (a b : Trace) (ha : a ∈ w) (hb : b ∈ w) (hne : a ≠ b) :
+    ∃ w', Reach w w' ∧ Stuck w' := stuck_of_ne a w b ha hb hne
+
 /-- the call returns on every rank whenever no rank's input is a `Trigger` -/
 theorem no_deadlock_partial (rp : Repairs) (api : Api) (cfg : Cfg) (world : List RankInput)
     (h : ∀ x ∈ world, ¬ Trigger rp api cfg x) : Completes (world.map (localTrace rp api cfg world)) := by
@@ -349,7 +354,7 @@ example : localRet .fillVarRec { safe := true } [{ fillCls := .ok, recno := 3 },
 def obligations : List String := [
   "trace_rank_independent_counterexample", "trace_needs_zeroPathNumrecs", "trace_needs_fillVarRecErr",
   "trace_needs_metaErrJoins", "trace_rank_independent_partial", "trace_rank_independent_repaired",
-  "matched_traces_no_deadlock", "completes_iff_all_equal", "no_deadlock_partial", "f2_deadlocks",
+  "matched_traces_no_deadlock", "completes_iff_all_equal", "mismatch_deadlocks", "no_deadlock_partial", "f2_deadlocks",
   "errors_local", "errors_local_data", "valid_rank_succeeds",
   "safe_same_code_counterexample", "safe_same_code_partial", "safe_same_code_fill"
 ]
